@@ -6,7 +6,7 @@
    Hypotheses on a saved relative list r: rt_ok and nonneg_waits (C12_proofs), and
      rswf r : per PITCH (the channel is not written to the file: every note is loaded on channel 0) the note messages
               alternate on / off in list order and every NOTE_OFF comes at a STRICTLY later tick than its NOTE_ON. *)
-From Coq Require Import ZArith List Bool Lia Permutation.
+From Coq Require Import ZArith List Bool Lia Permutation Sorted.
 From Model Require Import Base Seq Pairing Util Bars Store Midi Show.
 From Proofs Require Import C04_sort C04_proofs C07_proofs C17_proofs C15_proofs Sound_glue C15_sound C13_proofs C13_union
                            C12_proofs.
@@ -184,27 +184,34 @@ Lemma merge_meta_notes (v meta : list msg) :
   wfa meta = true -> (forall m, In m meta -> is_note m = false) ->
   let M := merge_abs v [meta] in
   nev (ev_rel (normalise (to_rel M))) = nev (ev_abs M) /\ Permutation (nev (ev_abs M)) (nev (ev_abs v)) /\
-  wfa (to_abs (normalise (to_rel M))) = true.
+  wfa (to_abs (normalise (to_rel M))) = true /\ tsorted M = true /\ swf M = true /\
+  swf (to_abs (normalise (to_rel M))) = true.
 Proof.
   intros Wv Sv Nv Wm NM M.
   assert (P : Permutation M (v ++ meta)).
   { unfold M, merge_abs. cbn [concat]. rewrite app_nil_r. apply C15_proofs.sort_abs_perm. }
   assert (SM : sortedb M = true) by apply sort_abs_sorted.
+  assert (TM : tsorted M = true) by now apply sortedb_tsorted.
   assert (WM : wfa M = true).
   { apply (wfa_perm (v ++ meta) M); [now apply Permutation_sym|]. now rewrite wfa_app, Wv, Wm. }
   assert (C : forall k x y, asum k x y M = asum k x y v).
   { intros k x y. rewrite (asum_perm k x y M _ P), asum_app, (asum_nokey k x y meta); [lia|].
     now apply no_notes_nokey. }
+  assert (SBM : sbal M = true).
+  { apply sbal_intro. intros k. destruct (sbal_spec v Sv k) as [H1 H2]. split.
+    - intros t. unfold sdepth. rewrite C. apply H1.
+    - rewrite <- asum_c1, C, asum_c1. exact H2. }
   assert (SW : swf M = true).
-  { apply sorted_swf; [exact SM| |].
-    - apply sbal_intro. intros k. destruct (sbal_spec v Sv k) as [H1 H2]. split.
-      + intros t. unfold sdepth. rewrite C. apply H1.
-      + rewrite <- asum_c1, C, asum_c1. exact H2.
-    - apply nover_intro. intros k t. unfold adepth. rewrite C. now apply nover_spec. }
-  destruct (notes_round M (sortedb_tsorted M SM) WM SW) as [E _].
-  split; [exact E|]. split; [|apply to_abs_wfa, nonneg_normalise].
-  etransitivity; [apply nev_perm, ev_abs_perm; exact P|]. rewrite ev_abs_app, nev_app, (no_notes_nev meta NM), app_nil_r.
-  reflexivity.
+  { apply sorted_swf; [exact SM|exact SBM|].
+    apply nover_intro. intros k t. unfold adepth. rewrite C. now apply nover_spec. }
+  assert (AM : forall k, alt k false (to_rel M) = true) by (intros k; rewrite alt_to_rel; now apply swf_alt).
+  destruct (notes_round M TM WM SW) as [E _].
+  split; [exact E|]. split; [|split; [apply to_abs_wfa, nonneg_normalise|split; [exact TM|split; [exact SW|]]]].
+  - etransitivity; [apply nev_perm, ev_abs_perm; exact P|]. rewrite ev_abs_app, nev_app, (no_notes_nev meta NM), app_nil_r.
+    reflexivity.
+  - apply to_abs_wf; [apply nonneg_normalise|intros k; apply C07_alternate|].
+    intros k t. unfold rsdepth. rewrite normalise_rsum by (auto using nonneg_to_rel).
+    rewrite rsum_to_rel by (auto using wfa_nnt). apply (sbal_spec M SBM k).
 Qed.
 
 Lemma stamped_ge r : forall cur m t, C07_proofs.nonneg_waits r = true -> In (m, t) (stamped r cur) -> cur <= t /\ is_wait m = false.
@@ -236,25 +243,29 @@ Lemma mapM_inj_ok {A B} (f : A -> result B) l ys ys' : mapM f l = Ok ys -> mapM 
 Proof. intros H1 H2. rewrite H1 in H2. now injection H2. Qed.
 
 (* every loaded sequence, the meta target 0 included (it is additionally merged with all signatures and control
-   changes and may get a 4/4 inserted): its relative view has exactly the saved note events *)
-Theorem C12_notes : forall rels : list (list msg),
+   changes and may get a 4/4 inserted): the note events of its relative view are those of a time-sorted, strictly
+   alternating absolute list y whose note events are a permutation of the saved ones *)
+Theorem C12_notes_strong : forall rels : list (list msg),
   forallb rt_ok rels = true -> forallb C12_proofs.nonneg_waits rels = true ->
   forall seqs, save_load rels = Ok seqs ->
   forall i r, nth_error rels i = Some r -> rswf r = true ->
-  exists s s' v, nth_error seqs i = Some s /\ get_rel s = Ok (s', v) /\
-    Permutation (nev (ev_rel v)) (saved_notes r).
+  exists s s' v y, nth_error seqs i = Some s /\ get_rel s = Ok (s', v) /\
+    nev (ev_rel v) = nev (ev_abs y) /\ tsorted y = true /\ swf y = true /\
+    Permutation (nev (ev_abs y)) (saved_notes r).
 Proof.
   intros rels Hok Hnn seqs Hsl i r Hr Hw.
-  destruct i as [|i].
-  2:{ destruct (C12_notes_own rels Hok Hnn seqs Hsl (S i) r (Nat.lt_0_succ i) Hr Hw) as (s & H1 & H2 & H3 & _).
-      exists s, s, (s_rel s). auto. }
-  destruct (C12_notes_partial rels Hok Hnn) as (st & Hc & Hs & Hmeta & _).
   assert (NNr : C07_proofs.nonneg_waits r = true).
   { rewrite forallb_forall in Hnn. apply Hnn. eapply nth_error_In; eauto. }
   destruct (LN_props r 0 NNr) as (_ & T & W); [lia|]. rewrite <- loaded_notes_LN in T, W.
   pose proof (swf_loaded r Hw) as SW.
   destruct (loaded_seq_notes (loaded_notes r) T W SW) as (E & Ta & Wa & Sa & Ca & E2 & P2).
   set (a2 := sort_abs (to_abs (normalise (to_rel (loaded_notes r))) ++ [])) in *.
+  destruct i as [|i].
+  2:{ destruct (C12_notes_partial rels Hok Hnn) as (st & _ & _ & _ & Hseq).
+      specialize (Hseq seqs Hsl (S i) r (Nat.lt_0_succ i) Hr). rewrite E in Hseq.
+      eexists. eexists. eexists. exists a2. split; [exact Hseq|]. split; [reflexivity|]. cbn [s_rel].
+      split; [exact E2|]. split; [exact Ta|]. split; [exact Sa|]. rewrite <- nev_ev_abs_loaded. exact P2. }
+  destruct (C12_notes_partial rels Hok Hnn) as (st & Hc & Hs & Hmeta & _).
   set (rf := normalise (to_rel a2)) in *.
   (* what convert did *)
   unfold save_load, convert_exec in Hsl.
@@ -289,27 +300,140 @@ Proof.
   assert (WM : wfa (cs_meta st) = true).
   { apply (wfa_perm _ _ (Permutation_sym Hmeta)). apply wfa_flat_map. intros l Hl. apply wfa_loaded_meta.
     rewrite forallb_forall in Hnn. now apply Hnn. }
-  destruct (merge_meta_notes V (cs_meta st) WV SV NV WM NM) as (EM & PM & WA).
+  destruct (merge_meta_notes V (cs_meta st) WV SV NV WM NM) as (EM & PM & WA & TM & SM & SA).
   rewrite (seq_merge_spec (mkseq a2 rf true false) (mkseq V rf false false) [seq_of_abs (cs_meta st)]
              [seq_of_abs (cs_meta st)] V [cs_meta st] eq_refl eq_refl) in Hsm.
   injection Hsm as <- _. cbv [get_abs s_abs_stale s_rel_stale s_rel] in Hga. injection Hga as <- <-.
   set (M := merge_abs V [cs_meta st]) in *. set (rM := normalise (to_rel M)) in *.
-  assert (PR : Permutation (nev (ev_rel rM)) (saved_notes r)).
-  { rewrite EM. etransitivity; [exact PM|exact PV]. }
+  assert (PR : Permutation (nev (ev_abs M)) (saved_notes r)) by (etransitivity; [exact PM|exact PV]).
   destruct Hcase as [[_ Hn]|(_ & mt3 & Hadd & Hn)].
-  - eexists. eexists. eexists. split; [exact Hn|]. split; [reflexivity|]. exact PR.
+  - eexists. eexists. eexists. exists M. split; [exact Hn|]. split; [reflexivity|]. auto.
   - cbv [seq_add_abs upd_abs get_abs s_abs_stale s_rel_stale s_rel s_abs rbind] in Hadd. apply Ok_inj in Hadd. subst mt3.
-    eexists. eexists. eexists. split; [exact Hn|]. split; [reflexivity|].
     set (x := mk_ts (default_channel (map to_events rels) (map (fun i : Z => [i]) (rangeZ_aux (length rels) 0))
-                       (rangeZ_aux (length rels) 0)) 4 4 0 false).
+                       (rangeZ_aux (length rels) 0)) 4 4 0 false) in *.
     assert (Px : Permutation (insort x (to_abs rM)) (x :: to_abs rM)) by apply C13_proofs.insort_perm.
-    rewrite to_rel_events.
+    assert (Tx : tsorted (insort x (to_abs rM)) = true) by apply insort_tsorted, to_abs_tsorted.
+    assert (Wx : wfa (insort x (to_abs rM)) = true).
+    { apply (wfa_perm _ _ (Permutation_sym Px)). cbn [wfa forallb]. fold (wfa (to_abs rM)). now rewrite WA. }
+    eexists. eexists. eexists. exists (insort x (to_abs rM)). split; [exact Hn|]. split; [reflexivity|].
+    cbn [s_abs]. split; [now rewrite to_rel_events|]. split; [exact Tx|]. split.
+    + apply swf_intro. intros k. rewrite salt_insort by reflexivity. now apply swf_spec.
     + etransitivity; [apply nev_perm, ev_abs_perm; exact Px|].
       change (x :: to_abs rM) with ([x] ++ to_abs rM). rewrite ev_abs_app, nev_app.
       change (nev (ev_abs [x])) with (@nil event). cbn [app].
-      etransitivity; [apply nev_perm, to_abs_events|exact PR].
-    + apply insort_tsorted, to_abs_tsorted.
-    + apply (wfa_perm _ _ (Permutation_sym Px)). cbn [wfa forallb]. fold (wfa (to_abs rM)). now rewrite WA.
+      etransitivity; [apply nev_perm, to_abs_events|]. fold rM. rewrite EM. exact PR.
+Qed.
+
+Theorem C12_notes : forall rels : list (list msg),
+  forallb rt_ok rels = true -> forallb C12_proofs.nonneg_waits rels = true ->
+  forall seqs, save_load rels = Ok seqs ->
+  forall i r, nth_error rels i = Some r -> rswf r = true ->
+  exists s s' v, nth_error seqs i = Some s /\ get_rel s = Ok (s', v) /\
+    Permutation (nev (ev_rel v)) (saved_notes r).
+Proof.
+  intros rels Hok Hnn seqs Hsl i r Hr Hw.
+  destruct (C12_notes_strong rels Hok Hnn seqs Hsl i r Hr Hw) as (s & s' & v & y & H1 & H2 & H3 & _ & _ & H6).
+  exists s, s', v. rewrite H3. auto.
+Qed.
+
+(* ---------------------------------------------------------------- per key: the same events in the same order *)
+(* the note events of one key (channel, pitch) *)
+Definition kev (k : k2) (E : list event) : list event := filter (fun e => is_key k (snd e)) E.
+Definition KE (k : k2) (a : list msg) : list event := kev k (nev (ev_abs a)).
+
+(* strict order on events: earlier tick, or same tick and NOTE_OFF before NOTE_ON *)
+Definition elt (e e' : event) : Prop :=
+  fst e < fst e' \/ (fst e = fst e' /\ mtype_rank (m_type (snd e)) < mtype_rank (m_type (snd e'))).
+Lemma elt_irrefl e : ~ elt e e.
+Proof. unfold elt. lia. Qed.
+Lemma elt_trans e1 e2 e3 : elt e1 e2 -> elt e2 e3 -> elt e1 e3.
+Proof. unfold elt. lia. Qed.
+
+Lemma ssorted_perm_eq : forall l1 l2 : list event,
+  StronglySorted elt l1 -> StronglySorted elt l2 -> Permutation l1 l2 -> l1 = l2.
+Proof.
+  induction l1 as [|x l1 IH]; intros l2 S1 S2 P.
+  - apply Permutation_nil in P. now subst.
+  - destruct l2 as [|y l2]; [apply Permutation_sym, Permutation_nil in P; discriminate|].
+    inversion S1 as [|? ? S1' F1]; subst. inversion S2 as [|? ? S2' F2]; subst.
+    assert (E : x = y).
+    { assert (Hy : In y (x :: l1)) by (eapply Permutation_in; [apply Permutation_sym; exact P|now left]).
+      assert (Hx : In x (y :: l2)) by (eapply Permutation_in; [exact P|now left]).
+      destruct Hy as [Hy|Hy]; [exact Hy|]. destruct Hx as [Hx|Hx]; [now symmetry|].
+      rewrite Forall_forall in F1, F2. exfalso. apply (elt_irrefl x).
+      eapply elt_trans; [apply F1; exact Hy|apply F2; exact Hx]. }
+    subst y. f_equal. apply IH; auto. eapply Permutation_cons_inv; eauto.
+Qed.
+
+Lemma KE_cons k m a :
+  KE k (m :: a) = if is_note m && is_key k m then (m_time m, strip_time m) :: KE k a else KE k a.
+Proof.
+  unfold KE, kev, nev, ev_abs. cbn [filter]. destruct (is_internal m) eqn:Ei; cbn [negb].
+  - now rewrite (internal_not_note m Ei).
+  - cbn [map filter snd]. change (is_note (strip_time m)) with (is_note m). destruct (is_note m); cbn [andb]; [|reflexivity].
+    cbn [filter snd]. change (is_key k (strip_time m)) with (is_key k m). now destruct (is_key k m).
+Qed.
+
+Definition bnd (o : option Z) (c : Z) (e : event) : Prop :=
+  match o with Some t0 => t0 < fst e | None => c < fst e \/ (fst e = c /\ is_on (snd e) = true) end.
+
+Lemma KE_bound k : forall a o c, tsorted a = true -> Forall (fun m => c <= m_time m) a -> salt k o a = true ->
+  Forall (bnd o c) (KE k a).
+Proof.
+  induction a as [|m a IH]; intros o c TS F S; [constructor|].
+  pose proof (tsorted_head _ _ TS) as Fh. pose proof (tsorted_tail _ _ TS) as TS'.
+  inversion F as [|? ? Fm Fa]; subst. rewrite KE_cons. cbn [salt] in S. unfold is_note.
+  destruct (is_key k m) eqn:K; cbn [andb] in *.
+  - destruct (is_on m) eqn:On; [|destruct (is_off m) eqn:Off]; cbn [orb andb].
+    + destruct o; [discriminate|]. constructor.
+      * cbn [bnd fst snd]. destruct (Z.eq_dec (m_time m) c) as [->|]; [right; split; [reflexivity|exact On]|left; lia].
+      * pose proof (IH (Some (m_time m)) c TS' Fa S) as B. eapply Forall_impl; [|exact B]. cbn [bnd]. intros e He. lia.
+    + destruct o as [t0|]; [|discriminate]. apply andb_true_iff in S as [T0 S]. apply Z.ltb_lt in T0. constructor.
+      * cbn [bnd fst]. exact T0.
+      * pose proof (IH None (m_time m) TS' Fh S) as B. eapply Forall_impl; [|exact B]. cbn [bnd]. intros e He. lia.
+    + now apply IH.
+  - rewrite andb_false_r. now apply IH.
+Qed.
+
+Lemma KE_sorted k : forall a o, tsorted a = true -> salt k o a = true -> StronglySorted elt (KE k a).
+Proof.
+  induction a as [|m a IH]; intros o TS S; [constructor|].
+  pose proof (tsorted_head _ _ TS) as Fh. pose proof (tsorted_tail _ _ TS) as TS'.
+  rewrite KE_cons. cbn [salt] in S. unfold is_note.
+  destruct (is_key k m) eqn:K; cbn [andb] in *.
+  - destruct (is_on m) eqn:On; [|destruct (is_off m) eqn:Off]; cbn [orb andb].
+    + destruct o; [discriminate|]. constructor; [now apply (IH (Some (m_time m)))|].
+      pose proof (KE_bound k a (Some (m_time m)) (m_time m) TS' Fh S) as B.
+      eapply Forall_impl; [|exact B]. cbn [bnd]. intros e He. left. exact He.
+    + destruct o as [t0|]; [|discriminate]. apply andb_true_iff in S as [_ S].
+      constructor; [now apply (IH None)|].
+      pose proof (KE_bound k a None (m_time m) TS' Fh S) as B.
+      eapply Forall_impl; [|exact B]. cbn [bnd]. intros e [He|[He1 He2]]; [left; exact He|right].
+      cbn [fst snd]. split; [now symmetry|]. change (m_type (strip_time m)) with (m_type m).
+      rewrite (off_rank m Off), (on_rank _ He2). lia.
+    + now apply (IH o).
+  - rewrite andb_false_r. now apply (IH o).
+Qed.
+
+(* for every key the loaded sequence has the same note events as the saved one, in the same order: same onsets, same
+   velocities (the NOTE_ON messages are equal), same ends, hence the same durations *)
+Theorem C12_notes_order : forall rels : list (list msg),
+  forallb rt_ok rels = true -> forallb C12_proofs.nonneg_waits rels = true ->
+  forall seqs, save_load rels = Ok seqs ->
+  forall i r, nth_error rels i = Some r -> rswf r = true ->
+  exists s s' v, nth_error seqs i = Some s /\ get_rel s = Ok (s', v) /\
+    forall k, kev k (nev (ev_rel v)) = kev k (saved_notes r).
+Proof.
+  intros rels Hok Hnn seqs Hsl i r Hr Hw.
+  destruct (C12_notes_strong rels Hok Hnn seqs Hsl i r Hr Hw) as (s & s' & v & y & H1 & H2 & H3 & H4 & H5 & H6).
+  exists s, s', v. split; [exact H1|]. split; [exact H2|]. intros k. rewrite H3, <- nev_ev_abs_loaded.
+  assert (NNr : C07_proofs.nonneg_waits r = true).
+  { rewrite forallb_forall in Hnn. apply Hnn. eapply nth_error_In; eauto. }
+  destruct (LN_props r 0 NNr) as (_ & T & _); [lia|]. rewrite <- loaded_notes_LN in T.
+  apply ssorted_perm_eq.
+  - apply (KE_sorted k y None H4). now apply swf_spec.
+  - apply (KE_sorted k (loaded_notes r) None T). apply swf_spec. now apply swf_loaded.
+  - unfold kev. apply Permutation_filter. rewrite nev_ev_abs_loaded. exact H6.
 Qed.
 
 (* ---------------------------------------------------------------- non-vacuity, and what is excluded *)
